@@ -25,10 +25,11 @@ class NumV(int):
 
 
 class DispInterp(TabInterp):
-    def __init__(self, prog, f, num, ok):
+    def __init__(self, prog, f, num, ok, concrete=False):
         TabInterp.__init__(self, prog, f, 64)
         self.choices = {"full": False}
         self.num, self.ok = num, ok
+        self.concrete = concrete        # the number is a plain integer: arithmetic, comparisons and table lookups on it are evaluated
         self.decodes = []
         self.parsers = 0
         self.parser_ok = True
@@ -65,7 +66,7 @@ class DispInterp(TabInterp):
                 raise Undecided("message_number() of something that is not the frame argument")
             if self.num is None:
                 return Adt("core::option::Option", 0, "None", [])
-            return Adt("core::option::Option", 1, "Some", [NumV(self.num)])
+            return Adt("core::option::Option", 1, "Some", [int(self.num) if self.concrete else NumV(self.num)])
         if c == "message_frame::MessageFrame::data":
             fr = self._deref(st, self.operand(st, t["args"][0]))
             if not (isinstance(fr, Opaque) and fr.tag == "frame"):
@@ -148,8 +149,8 @@ class DispInterp(TabInterp):
         raise Undecided("call of the function value %s" % path)
 
 
-def run(prog, f, num, ok):
-    it = DispInterp(prog, f, num, ok)
+def run(prog, f, num, ok, concrete=False):
+    it = DispInterp(prog, f, num, ok, concrete)
     st = State()
     st.locals[-10] = Opaque("frame", ())
     st.locals[1] = Ref(("local", -10, (), st.frame))
@@ -163,21 +164,39 @@ def run(prog, f, num, ok):
 
 
 def check(prog, path, numbers):
-    """-> {'table': {n: {'variant','callee','corrupt_callee'}}, 'problems': [text]}; raises Undecided"""
+    """-> {'table': {n: {'variant','callee','corrupt_callee'}}, 'problems': [text]}; raises Undecided.
+    First under the symbolic discipline (the number only matched against literals).  Where the function computes with the number (a range
+    pre-filter, a lookup table indexed by n - 1001), every one of the 4096 values a 12-bit message number can take (N-pres) is evaluated as a
+    concrete integer instead - the frame contents and the decoder outcomes stay abstract."""
+    try:
+        return _check(prog, path, numbers, False)
+    except Undecided as e:
+        if "message number" not in str(e):
+            raise
+    return _check(prog, path, numbers, True)
+
+
+def _check(prog, path, numbers, concrete):
     f = prog.fn(path)
     problems = []
     table = {}
-    it, r = run(prog, f, None, True)
+    it, r = run(prog, f, None, True, concrete)
     if not (isinstance(r, Adt) and r.path == MSG and r.vname == "Empty") or it.decodes:
         problems.append("a frame without a message number gives %s (decoders called: %d), expected Message::Empty" % (getattr(r, "vname", r), len(it.decodes)))
-    it, r = run(prog, f, OTHER, True)
-    okd = isinstance(r, Adt) and r.path == MSG and r.vname == "MsgNotSupported" and r.fields and isinstance(r.fields[0], Adt) and r.fields[0].fields \
-        and isinstance(r.fields[0].fields[0], NumV) and int(r.fields[0].fields[0]) == OTHER and not it.decodes
-    if not okd:
-        problems.append("a number without an arm gives %s, expected MsgNotSupported carrying that number" % (getattr(r, "vname", r),))
+    others = [OTHER] if not concrete else [m for m in range(4096) if m not in numbers]
+    bad_others = 0
+    for m in others:
+        it, r = run(prog, f, m, True, concrete)
+        okd = isinstance(r, Adt) and r.path == MSG and r.vname == "MsgNotSupported" and r.fields and isinstance(r.fields[0], Adt) and r.fields[0].fields \
+            and isinstance(r.fields[0].fields[0], int) and int(r.fields[0].fields[0]) == m and not it.decodes
+        if not okd:
+            bad_others += 1
+            if bad_others <= 3:
+                problems.append("a number without an arm%s gives %s, expected MsgNotSupported carrying that number" % (
+                    "" if not concrete else " (%d)" % m, getattr(r, "vname", r),))
     for n in sorted(numbers):
         e = {}
-        it, r = run(prog, f, n, True)
+        it, r = run(prog, f, n, True, concrete)
         if isinstance(r, Adt) and r.path == MSG and r.vname == "MsgNotSupported":
             problems.append("number %d has no arm" % n)
             continue
@@ -188,7 +207,7 @@ def check(prog, path, numbers):
                 n, getattr(r, "vname", r), it.decodes, it.parser_ok and it.parsers == 1))
             continue
         e["variant"], e["callee"] = r.vname, it.decodes[0]
-        it2, r2 = run(prog, f, n, False)
+        it2, r2 = run(prog, f, n, False, concrete)
         if not (isinstance(r2, Adt) and r2.path == MSG and r2.vname == "Corrupt" and it2.decodes == [e["callee"]]):
             problems.append("number %d with an undecodable body gives %s (decoder calls %s), expected Message::Corrupt" % (n, getattr(r2, "vname", r2), it2.decodes))
         else:
